@@ -34,7 +34,7 @@ LEVEL = ("sibling / guard rules: (1) every get_type_string implementation evalua
          "one function that ORs their `required`, or returns under equality of the two; (9) decode direction: the Python code each kind's construct macro generates "
          "for a non-required property (per valuation of the template conditions, macro calls followed, placeholders for destination / "
          "source / unknown) is parsed and run abstractly on the path where the source is UNSET: the destination ends as the source / "
-         "UNSET, never as a fresh value; (11) the `required` lists of the document reach the builders whole (no in-place rewrite, no "
+         "UNSET, never as a fresh value, and (13) on the path where the source is anything but the sentinel (truth value unknown) it never ends as UNSET; (11) the `required` lists of the document reach the builders whole (no in-place rewrite, no "
          "filter over a collection made of them); (12) two declarations' `required` are combined only by the merge module and the "
          "function that walks allOf.")
 
